@@ -1196,6 +1196,7 @@ func (e *Enc) encodeBinOp(st *bstate, x *ssa.BinOp) {
 	case token.ADD:
 		if isStr {
 			e.setVal(x, Val{T: app("sconcat", at, bt)})
+			e.assert(e.typeInv(app("sconcat", at, bt), x.Type())) // the concatenation exists as a Go string
 			return
 		}
 		if srt == "Real" {
@@ -1430,6 +1431,7 @@ func (e *Enc) encodeConvert(st *bstate, x *ssa.Convert) {
 		e.W.declareStrOfArr()
 		r := e.fresh("strof", "Str")
 		e.assert(sEq(r, app("strofarr", app("select", e.heapVar(st, c), app("sbase", v.T)), app("soff", v.T), app("slength", v.T))))
+		e.assert(e.typeInv(r, x.Type()))
 		e.setVal(x, Val{T: r})
 	case fromInt && ts == "Str": // string(rune)
 		r := e.fresh("strofrune", "Str")
